@@ -110,7 +110,7 @@ func TestVSOTFaults(t *testing.T) {
 		choices, cc := genChoices(t, "choices", xi)
 		seed := rapid.Uint64().Draw(t, "seed")
 		f := &otFault{
-			field: rapid.SampledFrom([]string{"Xi", "Xi", "RhoPrime", "RhoPrime", "Rho0Digest", "Rho1Digest", "Rho0Digest", "Rho1Digest", "BigB", "Proof"}).Draw(t, "field"),
+			field: rapid.SampledFrom([]string{"Xi", "Xi", "RhoPrime", "RhoPrime", "Rho0Digest", "Rho1Digest", "Rho0Digest", "Rho1Digest", "BigB", "BigB", "Proof"}).Draw(t, "field"),
 			idx:   rapid.IntRange(0, xi*l-1).Draw(t, "idx"),
 			pos:   rapid.IntRange(0, 255).Draw(t, "pos"),
 			bit:   rapid.IntRange(0, 7).Draw(t, "bit"),
